@@ -17,6 +17,7 @@ func init() {
 		Rule:    "history = seeded forest<=5 entities + up to 6 operations from {edit subject/extensions/issuer/profile reference, edit profile, add entity, remove entity (leaf or with children re-parented), delete/truncate/strip-key/replace(foreign, hash-less) artifact, strip hash, touch config, run with any of the 32 flag sets}, optionally with external edits landing between two file-system operations of a non-final run, then Run{-m -c}; oracle = final run succeeds + every entity complete + chain verifier + differential against a from-scratch run of a cloned world (configs, profiles, user-supplied artifacts) + user-supplied artifacts untouched without a reason; distinct = (op-kind sequence, per-run outcome, final artifact state); non-trivial = a run planned work",
 		Oracle:  func() Oracle { return &c12Oracle{} },
 		Explore: exploreC12,
+		LaneP:   laneP_C12,
 		Exec:    execC12,
 	})
 }
@@ -341,6 +342,84 @@ func exploreC12(t *testing.T, seed uint64, idx int, tier string, sink *Sink) {
 		}
 	}
 	sink.Report(w)
+	if len(w.Viol) == 0 && w.Harness == "" && idx%8 == 0 {
+		laneP_C12(t, plan, w, sink)
+	}
+}
+
+// laneP_C12: the final run once more by the real binary on what that run found. Lane S's outcome has
+// just been compared with a clean run; the binary's outcome is compared with lane S's: same
+// configuration, same artifacts in front of the run, same flags - the certificates it leaves have to
+// agree field by field (apart from what is random or relative to the time of the run), and chain.
+func laneP_C12(t *testing.T, plan *Plan, w *World, sink *Sink) {
+	if gopkiBin() == "" || len(w.Runs) == 0 || len(plan.Ops) == 0 || plan.Ops[len(plan.Ops)-1].K != "run" {
+		return
+	}
+	final := w.Runs[len(w.Runs)-1]
+	if !final.Op.HasTag("final") || !final.OK() || final.Op.ID != plan.Ops[len(plan.Ops)-1].ID {
+		return
+	}
+	tz := plan.TZ
+	for _, op := range plan.Ops {
+		if op.K == "tz" {
+			tz = op.Arg
+		}
+		if op.K == "shift-mtimes" {
+			return // real timestamps cannot be ahead of the real clock the binary reads
+		}
+	}
+	if strings.HasPrefix(tz, "fixed:") {
+		return // a fixed offset has no zone name the binary's TZ variable could carry
+	}
+	dir, err := scratchDir()
+	if err != nil {
+		sink.res.Harness = append(sink.res.Harness, err.Error())
+		return
+	}
+	defer removeAll(dir)
+	if err := materialize(dir, final.Before, w.FS.dirs); err != nil {
+		sink.Cell("lane:P:not-materialisable")
+		return
+	}
+	yes := "y\n"
+	res, err := runBinary(dir, Mix(plan.Seed, 5252), flagArgs(final.Op.Flags), &yes, tz)
+	if err != nil {
+		sink.res.Harness = append(sink.res.Harness, "lane P run: "+err.Error())
+		return
+	}
+	sink.Cell("lane:P")
+	if res.Exit != 0 {
+		sink.LaneViolation(plan, "laneP:exit-status", fmt.Sprintf("lane S ran the final step successfully, the binary exited %d: %s", res.Exit, tailStr(res.Stdout, 800)))
+		return
+	}
+	after, _ := readDirSnap(dir)
+	sh := w.shadow(after)
+	for _, e := range w.Entities() {
+		as, ap := w.Artifact(e), sh.Artifact(e)
+		if as.Cert == nil || !as.Pem.HasHash {
+			continue
+		}
+		if ap.Cert == nil || !ap.Pem.HasHash {
+			sink.LaneViolation(plan, "laneP:artifact-differs-from-lane-S", fmt.Sprintf("%s: lane S left a certificate with hash line, the binary left exists=%v hash=%v cert=%v", e.ID, ap.Exists, ap.Pem.HasHash, ap.Cert != nil))
+			return
+		}
+		ns, np := normalise(w, e, as.Cert), normalise(sh, e, ap.Cert)
+		var keys []string
+		for k := range ns {
+			keys = append(keys, k)
+		}
+		sort.Strings(keys)
+		for _, k := range keys {
+			if ns[k] != np[k] {
+				sink.LaneViolation(plan, "laneP:certificate-differs-from-lane-S:"+k, fmt.Sprintf("%s: %s is %s after lane S's final run and %s after the binary's", e.ID, k, ns[k], np[k]))
+				return
+			}
+		}
+		if as.Pem.HashLine != ap.Pem.HashLine {
+			sink.LaneViolation(plan, "laneP:hash-line-differs-from-lane-S", fmt.Sprintf("%s: %q vs %q", e.ID, as.Pem.HashLine, ap.Pem.HashLine))
+			return
+		}
+	}
 }
 
 type c12Oracle struct{}
